@@ -12,8 +12,8 @@ Lean side
 
 Adapter (this file) drives the real code through its public API:
   chem …     real `Chemical` objects: ~45 bundled chemicals × 3 reference phases, the same with Hfus/Tm given to
-             the constructor (so that Sfus is computed), with Tm/Tb moved through the public setters, phase-locked
-             chemicals, and blank chemicals with arbitrary Tm, Tb, Hfus, Sfus, Hvap and polynomial heat capacities.
+             the constructor, with Tm/Tb moved through the public setters, phase-locked chemicals through every
+             public route (Chemical(phase=), at_state in place, at_state(copy=True), Chemical.copy of a locked one), and blank chemicals with arbitrary Tm, Tb, Hfus, Sfus, Hvap and polynomial heat capacities.
              `wiring` reads the functor class and the constants actually stored in chemical.H.s/.l/.g, chemical.S.*
              and compares them with the model's `_init_energies` fed the integrals measured on the real Cn objects
              (table `tab`); `H`/`S` compare values.
@@ -57,6 +57,8 @@ CANDIDATES = ['Water', 'Ethanol', 'Methanol', 'Propanol', 'Butanol', 'Benzene', 
               'DiethylEther', 'Chloroform', 'Acetaldehyde', 'LacticAcid', 'Octanol', 'Decane', 'Dodecane', 'o-Xylene',
               'Styrene', 'Isopropanol', 'Isobutanol', 'SO2', 'H2S', 'Argon', 'CO', 'H2', 'HCl', 'Acetonitrile',
               'Tetrahydrofuran', 'DMSO', 'EthyleneGlycol']
+LOCK_ROUTES = ['ctor', 'inplace', 'copy', 'copy', 'copyof', 'copyof-inplace', 'relock']
+LOCK_GRID_IDS = ['Water', 'Ethanol', 'CO2', 'Benzene', 'Glycerol']
 MIX_IDS = ['Water', 'Ethanol', 'Methanol', 'Glycerol', 'Propane', 'N2']
 
 tmo = None
@@ -164,7 +166,25 @@ def get_chem(spec):
         if spec[3] != '-': c.Tm = float(spec[3])
         if spec[4] != '-': c.Tb = float(spec[4])
     elif kind == 'lock':
-        c = tmo.Chemical(spec[1], phase=spec[2], cache=False)
+        # lock <ID> <phase> [route [reference phase of the chemical before locking]] — every public route to a locked chemical
+        ID, ph = spec[1], spec[2]
+        route = spec[3] if len(spec) > 3 else 'ctor'
+        ref = spec[4] if len(spec) > 4 else None
+        fresh = lambda: tmo.Chemical(ID, cache=False) if ref is None else tmo.Chemical(ID, phase_ref=ref, cache=False)
+        if route == 'ctor':                       # Chemical(ID, phase=…)
+            c = tmo.Chemical(ID, phase=ph, cache=False)
+        elif route == 'inplace':                  # chemical.at_state(phase)
+            c = fresh(); c.at_state(ph)
+        elif route == 'copy':                     # chemical.at_state(phase, copy=True)
+            c = fresh().at_state(ph, copy=True)
+        elif route == 'copyof':                   # Chemical.copy of a locked chemical
+            c = tmo.Chemical(ID, phase=ph, cache=False).copy(ID + '_copy')
+        elif route == 'copyof-inplace':           # … of a chemical locked in place
+            b = fresh(); b.at_state(ph); c = b.copy(ID + '_copy')
+        elif route == 'relock':                   # at_state on an already locked chemical (same phase: no-op)
+            c = fresh(); c.at_state(ph); c.at_state(ph)
+        else:
+            raise ValueError('unknown lock route ' + route)
     elif kind == 'synth':
         ref, Tm, Tb, Hfus, Sfus, Hvap, S0 = spec[1], ptok(spec[2]), ptok(spec[3]), ptok(spec[4]), ptok(spec[5]), ptok(spec[6]), float(spec[7])
         data = dict(phase_ref=ref, MW=50.)
@@ -697,6 +717,7 @@ def run_ops(ops):
         if op == 'chem':
             sess = Session(get_chem(tuple(t[1:])))
             tags.append('chem:' + t[1] + ':' + (sess.c.locked_state and 'locked' or sess.c.phase_ref))
+            if t[1] == 'lock': tags.append('lock-route:' + (t[4] if len(t) > 4 else 'ctor') + ':' + t[3])
             for l in sess.head(): emit(l, 'ok')
         elif op == 'wiring':
             for l in sess.tabs(): emit(l, 'ok')
@@ -929,7 +950,9 @@ def gen_chem_case(rng):
         q = rng.random()
         spec = f'set {ID} {ref} {Tm if q < 0.7 else "-"} {Tb if q > 0.35 else "-"}'
     elif r < 0.78:
-        spec = f'lock {ID} {rng.choice("slg")}'
+        route = rng.choice(LOCK_ROUTES)
+        spec = f'lock {ID} {rng.choice("slg")} {route}'
+        if route != 'ctor' and route != 'copyof' and rng.random() < 0.4: spec += ' ' + rng.choice('slg')
     else:
         Tm = round(rng.uniform(80, 650), 2)
         Tb = round(Tm + rng.uniform(5, 400), 2) if rng.random() < 0.9 else round(rng.uniform(80, 650), 2)
@@ -1024,10 +1047,17 @@ def generate(rng, tier, index, nworkers):
     for name in FN_NAMES(): grid.append(('fn', name))
     for ID in UNIVERSE:
         for ref in 'slg': grid.append(('db', ID, ref))
+    for ID in LOCK_GRID_IDS:
+        if ID not in UNIVERSE: continue
+        for ph in 'slg':
+            for route in sorted(set(LOCK_ROUTES)): grid.append(('lock', ID, ph, route))
     for j, g in enumerate(grid):
         if j % nworkers != index: continue
         if g[0] == 'fn':
             yield gen_fn_case(rng, g[1])
+        elif g[0] == 'lock':
+            c = get_chem(g)
+            yield Case(['chem ' + ' '.join(g), 'wiring'] + oracle_ops(rng, c), {})
         else:
             c = get_chem(g)
             yield Case([f'chem db {g[1]} {g[2]}', 'wiring'] + oracle_ops(rng, c), {})
@@ -1057,6 +1087,11 @@ def corpus():
         Case(['chem ctor Water s', 'wiring', 'S g 380.0 200000.0', 'o:ref', 'o:jumpTb', 'o:jumpTm', 'o:press 300.0 101325.0 1000000.0']),
         Case(['chem lock N2 g', 'wiring', 'H g 298.15 101325.0', 'S g 350.0 200000.0', 'o:ref', 'o:press 300.0 101325.0 50000.0']),
         Case(['chem lock Water l', 'wiring', 'S l 298.15 101325.0', 'o:ref']),
+        # locked through the other public routes, at a phase different from the natural reference phase (seeded change C07-3)
+        Case(['chem lock Water g copy', 'wiring', 'H g 298.15 101325.0', 'S g 298.15 101325.0', 'o:ref', 'o:press 350.0 101325.0 200000.0']),
+        Case(['chem lock Water g inplace', 'wiring', 'o:ref']),
+        Case(['chem lock Ethanol s copy g', 'wiring', 'o:ref']),
+        Case(['chem lock Water g copyof', 'wiring', 'o:ref']),
         Case(['chem synth g 200.0 250.0 5000.0 25.0 20000.0 100.0 30.0,0.0,0.0 60.0,0.1,0.0 40.0,0.0,0.0', 'wiring',
               'H s 300.0 101325.0', 'S s 300.0 200000.0', 'S l 300.0 200000.0', 'S g 300.0 200000.0', 'o:ref', 'o:jumpTb', 'o:jumpTm']),
         Case(['phaseref db Water', 'phaseref db CO2', 'phaseref blank 298.15 400.0', 'phaseref blank 200.0 298.15',
